@@ -246,6 +246,7 @@ var c20Texts = []string{
 	"5.7.1 rejected for policy reasons", "4.3.0 try again later", "5.1.1 user unknown", "4.7.0 greylisted", "2.0.0 weird class", "5.7.26 multiple auth checks failed", "5.123.456 long detail",
 	"no data for you from 10.2.3.4", "running ESMTP 4.2.1 here", "rejected by host 5.5.5.5 policy", "error in version 2.3.4", "see RFC 5.2.1",
 	"5.7.1", "5.7.1rejected", "5.7 short", "5.7.1.2 too many", "x5.1.1 prefixed",
+	"Transaction failed, upstream said: 550 5.1.1 User unknown", "Sender verify deferred (callout got 450 4.4.3 timeout)", "relay said 250 2.0.0 ok, then 554 5.7.1 no", "<550 5.1.1> quoted", "see (5.1.1) or [4.4.3]",
 	"5.7.1 first line\n5.7.1 second line", "first line\nsecond line", "4.2.2 mailbox full\nsee 10.0.0.1",
 }
 
@@ -282,8 +283,8 @@ func c20Gen(t *rapid.T) c20Case {
 
 func c20Describe() {
 	rec := core.Rec("C20")
-	rec.Rule = "batches of 1..4 messages x 1..4 recipients sent with Client.Send to the reference server, which answers 1..4 chosen commands (MAIL, individual RCPTs, DATA, end-of-data, the RSET after a delivered message) with a reply code from 400..599 and a text from {plain, leading well-formed enhanced code, enhanced-looking material later in the text (IPv4 addresses, version numbers), malformed enhanced codes, multi-line}, with ENHANCEDSTATUSCODES advertised or not. " +
-		"TestC20Enum (thorough) enumerates all 200 codes x 5 positions x ESC on/off x 4 text kinds for a single message. " +
+	rec.Rule = "batches of 1..4 messages x 1..4 recipients sent with Client.Send to the reference server, which answers 1..4 chosen commands (MAIL, individual RCPTs, DATA, end-of-data, the RSET after a delivered message) with a reply code from 400..599 and a text from {plain, leading well-formed enhanced code, enhanced-looking material later in the text (IPv4 addresses, version numbers, quoted replies of an upstream server such as '550 5.1.1 User unknown'), malformed enhanced codes, multi-line}, with ENHANCEDSTATUSCODES advertised or not. " +
+		"TestC20Enum (thorough) enumerates all 200 codes x 5 positions x ESC on/off x 5 text kinds for a single message. " +
 		"Oracle, computed from what the server sent: Reason names the step, ErrorCode() == code, IsTemp() <=> 4yz, EnhancedStatusCode() == leading enhanced code iff advertised and the reply began with one, the recipients listed == exactly the rejected ones with code/temp/enhanced code of the last rejection, unaffected messages carry no error, Send's joined error has one entry per failed message and Msg.SendError() is that entry. " +
 		"Non-trivial: a code other than 450/550 or a partial recipient rejection. Distinct by (batch, ESC, fault list)."
 	rec.Assumptions = []string{"only 'reply' outcomes are injected (no disconnects), so every message reaches its MAIL command", "NOOP replies are not faulted (not in the property's quantifier)"}
@@ -301,7 +302,7 @@ func TestC20Enum(t *testing.T) {
 	}
 	c20Describe()
 	p := core.Prop[c20Case]{ID: "C20", Test: "TestC20", Run: c20Run}
-	texts := []string{"mailbox unavailable", "5.7.1 rejected for policy reasons", "no data for you from 10.2.3.4", "4.2.2 mailbox full\nsee 10.0.0.1"}
+	texts := []string{"mailbox unavailable", "5.7.1 rejected for policy reasons", "no data for you from 10.2.3.4", "4.2.2 mailbox full\nsee 10.0.0.1", "Transaction failed, upstream said: 550 5.1.1 User unknown"}
 	idx := 0
 	for code := 400; code <= 599; code++ {
 		for _, pos := range []string{"mail", "rcpt", "data", "eod", "rset"} {
